@@ -490,6 +490,7 @@ class CBO(Search):
             logging.info(f"Set up scheduler '{scheduler}'")
 
         self._num_asked = 0
+        self._asked_since_tell = False
 
     def _setup_optimizer(self):
         if self._fitted:
@@ -513,7 +514,14 @@ class CBO(Search):
         Returns:
             List[Dict]: a list of hyperparameter configurations to evaluate.
         """
+        # The optimizer only moves on to new points when it is told results: its next point
+        # and its cache of batches are the same until then. If configurations were already
+        # asked since the last tell they are refreshed first, otherwise the very same
+        # configurations would be returned again.
+        if self._asked_since_tell:
+            self._opt.update_next()
         new_X = self._opt.ask(n_points=n, strategy=self._multi_point_strategy)
+        self._asked_since_tell = True
         new_samples = [self._to_dict(x) for x in new_X]
         self._num_asked += n
         return new_samples
@@ -550,6 +558,8 @@ class CBO(Search):
                     opt_y.append("F")
 
         logging.info(f"Transformation took {time.time() - t1:.4f} sec.")
+
+        self._asked_since_tell = False
 
         # apply scheduler
         self._apply_scheduler(self._num_asked)
